@@ -83,7 +83,7 @@ class St(K):
 class Dct(K):
     key: K
     val: K
-    tag: Optional[str] = field(default=None, compare=False)  # "<Class>.<table>" for declared tables
+    tag: Optional[str] = field(default=None)  # "<Class>.<table>" for declared tables (part of the identity)
 
     def __repr__(self):
         t = f"<{self.tag}>" if self.tag else ""
@@ -190,9 +190,10 @@ def union(*ks: K) -> K:
         mem -= set(sts)
         mem.add(St(e))
     dcts = [m for m in mem if isinstance(m, Dct)]
-    if len(dcts) > 1:
+    tags = {d.tag for d in dcts}
+    if len(dcts) > 1 and not (len(tags) > 1 and None not in tags):
+        # (two different declared tables stay apart: `for table in (self._adj_source, self._adj_target)`)
         mem -= set(dcts)
-        tags = {d.tag for d in dcts}
         mem.add(Dct(join_all([d.key for d in dcts]), join_all([d.val for d in dcts]), tag=tags.pop() if len(tags) == 1 else None))
     tups = [m for m in mem if isinstance(m, Tup)]
     if len(tups) > 1 and len({len(t.items) for t in tups}) == 1:
